@@ -42,6 +42,23 @@ fn simplify(step: &Step) -> Vec<Step> {
                 out.push(Step::Deliver { m: *m, fault: NetFault::Drop });
             }
         }
+        Step::Push { b, a, sid, buf, fault, mode } => {
+            if *fault != NetFault::None {
+                out.push(Step::Push { b: *b, a: *a, sid: *sid, buf: *buf, fault: NetFault::None, mode: *mode });
+            }
+            if buf.is_some() {
+                out.push(Step::Push { b: *b, a: *a, sid: *sid, buf: None, fault: fault.clone(), mode: *mode });
+            }
+            if *mode != 0 {
+                out.push(Step::Push { b: *b, a: *a, sid: *sid, buf: *buf, fault: fault.clone(), mode: 0 });
+            }
+        }
+        Step::Subscribe { a, b, sid, fault } => {
+            if *fault != NetFault::None {
+                out.push(Step::Subscribe { a: *a, b: *b, sid: *sid, fault: NetFault::None });
+            }
+        }
+        Step::Hello { a, b, fault: Some(_) } => out.push(Step::Hello { a: *a, b: *b, fault: None }),
         Step::Commit { r, t, spill_fault, per_addr } => {
             if spill_fault.is_some() || *per_addr {
                 out.push(Step::Commit { r: *r, t: *t, spill_fault: None, per_addr: false });
